@@ -143,7 +143,8 @@ class C06(Prop):
     id = "C06"
 
     def rule(self):
-        return ("FEED ops: streams as in C05, cut into consecutive chunks: random cut sets, all one-byte chunks, "
+        return ("SCHED ops (arbitrary interleavings of appending a piece and single scanner calls, finished by "
+                "draining) and FEED ops: streams as in C05, cut into consecutive chunks: random cut sets, all one-byte chunks, "
                 "cuts at every offset of one frame. Oracle: delivered frames, total consumed and remainder equal "
                 "those of feeding the whole stream at once (real scanner both times). Non-trivial = distinct "
                 "(stream, cut set) with at least one cut strictly inside a frame or candidate and >= 2 chunks.")
@@ -166,6 +167,17 @@ class C06(Prop):
             cuts = sorted(set(r.randrange(0, min(len(s), 60) + 1) for _ in range(3)))
             parts = [s[a:b] for a, b in zip([0] + cuts, cuts + [len(s)])]
             yield ("FEED " + "|".join(hx(p) for p in parts), "stray-before-frame", True)
+        for _ in range(120 if ctx.tier == "quick" else 2500):
+            s, kinds = stream_mix(r, r.randrange(1, 6), maxlen=30)
+            if not s:
+                continue
+            cuts = sorted(set(r.randrange(0, len(s) + 1) for _ in range(r.randrange(0, 7))))
+            parts = [s[a:b] for a, b in zip([0] + cuts, cuts + [len(s)])]
+            ops = []
+            for p in parts:
+                ops.append("a" + hx(p))
+                ops += ["s"] * r.choice([0, 0, 1, 1, 2, 3])
+            yield ("SCHED " + "|".join(ops), "schedule", len(parts) >= 2)
         f = mk_frame(payload_for(r, 6, 1005))
         pre = rand_bytes(r, 2)
         for cut in range(len(f) + 1):
